@@ -31,9 +31,9 @@ import (
 )
 
 type c04Pred struct {
-	Must map[string][]dbExp `json:"must"`
-	May  map[string][]dbExp `json:"may"`
-	Exp  map[string][]dbExp `json:"exp"`
+	Must map[string][]cdbExp `json:"must"`
+	May  map[string][]cdbExp `json:"may"`
+	Exp  map[string][]cdbExp `json:"exp"`
 }
 
 type c04File struct {
@@ -382,7 +382,7 @@ func c04TreeDiffUndamaged(before, after map[string]string, damaged string) strin
 
 func c04TreeMap(dir string) map[string]string {
 	m := map[string]string{}
-	h, _ := dbTreeHash(dir)
+	h, _ := cdbTreeHash(dir)
 	for _, l := range strings.Split(h, "\n") {
 		fs := strings.Fields(l)
 		if len(fs) >= 4 && fs[0] == "f" {
@@ -413,7 +413,7 @@ func TestVerifC04Damage(t *testing.T) {
 		noChange    atomic.Int64
 	)
 	for bi, b := range behs {
-		if infra.Load() != nil || verifh.Violations() >= 20 {
+		if infra.Load() != nil || c03Bad.Load() >= 20 {
 			break
 		}
 		n := len(b)
@@ -517,7 +517,7 @@ func TestVerifC04Damage(t *testing.T) {
 				defer wg.Done()
 				for {
 					di := int(next.Add(1)) - 1
-					if di >= len(all) || infra.Load() != nil || verifh.Violations() >= 20 {
+					if di >= len(all) || infra.Load() != nil || c03Bad.Load() >= 20 {
 						return
 					}
 					d := all[di]
@@ -527,7 +527,7 @@ func TestVerifC04Damage(t *testing.T) {
 							if p := recover(); p != nil {
 								buf := make([]byte, 3000)
 								buf = buf[:runtime.Stack(buf, false)]
-								verifh.Violation(d.file+":panic", fmt.Sprintf("behaviour %d damage %s: panic: %v\n%s", bi, d, p, buf), map[string]any{"workload": w, "damage": d.String(), "seed": seed})
+								c03Report(d.file+":", "panic", fmt.Sprintf("behaviour %d damage %s: panic: %v\n%s", bi, d, p, buf), map[string]any{"workload": w, "damage": d.String(), "seed": seed})
 							}
 						}()
 						c04One(bi, wk, d, root, base, w, seed, conc, dm, &nrun, &nopenfail, &noChange, &infra, &mu, classes)
@@ -553,20 +553,20 @@ func TestVerifC04Damage(t *testing.T) {
 	verifh.Stat(map[string]any{"damaged_reopens": nrun.Load(), "open_failures_allowed": nopenfail.Load(), "databases": len(behs),
 		"damage_classes": strings.Join(cl, " "), "layout_drift": layoutDrift.Load(), "noop_damages_skipped": noChange.Load()})
 	verifh.Done(int(nrun.Load()))
-	if verifh.Violations() > 0 {
+	if c03Bad.Load() > 0 {
 		t.Fail()
 	}
 }
 
 // c04One damages one copy and judges it.
-func c04One(bi, wk int, d c04Damage, root, base string, w []c03Step, seed int64, conc dbConc, dm c04Step,
+func c04One(bi, wk int, d c04Damage, root, base string, w []c03Step, seed int64, conc cdbConc, dm c04Step,
 	nrun, nopenfail, noChange *atomic.Int64, infra *atomic.Value, mu *sync.Mutex, classes map[string]int) {
 	{
 		{
 			{
 				work := filepath.Join(root, fmt.Sprintf("c04-%d-w%d", bi, wk))
 				os.RemoveAll(work)
-				if err := dbCopyTree(base, work); err != nil {
+				if err := cdbCopyTree(base, work); err != nil {
 					infra.Store(err.Error())
 					return
 				}
@@ -593,7 +593,7 @@ func c04One(bi, wk int, d c04Damage, root, base string, w []c03Step, seed int64,
 				what := fmt.Sprintf("behaviour %d [%s] damage %s", bi, conc, d)
 				damagedTree := c04TreeMap(work)
 				openFailed := false
-				sig, msg, got := c03JudgeDirX(w, seed, work, len(w)-1, what, pred.Must, []map[string][]dbExp{pred.May}, func(oerr error) (string, string) {
+				sig, msg, got := c03JudgeDirX(w, seed, work, len(w)-1, what, pred.Must, []map[string][]cdbExp{pred.May}, func(oerr error) (string, string) {
 					// a failing Open is allowed if it leaves every undamaged file as it was
 					openFailed = true
 					after := c04TreeMap(work)
